@@ -698,11 +698,20 @@ def C19(tier):
     q = tier == "quick"
     cubes = corridors(1, 2, [[20]]) + corridors(2, 3, [[20, 20], [10, 30], [30, 10]])
     generic = [c for c in corridors(3, 5, [[20, 20, 20]]) if len({c["l[0]"], c["l[1]"], c["l[2]"], c["r[0]"], c["r[1]"], c["r[2]"]}) == 6]
-    cubes += corridors(3, 2, [[20, 20, 20]]) + generic if q else corridors(3, 3, [[20, 20, 20], [10, 30, 20]]) + generic + corridors(2, 5, [[10, 40], [40, 10]])
+    cubes += corridors(3, 2, [[20, 20, 20]]) if q else corridors(3, 3, [[20, 20, 20], [10, 30, 20]]) + generic + corridors(2, 5, [[10, 40], [40, 10]])
+
+    def staircase(c):
+        # two consecutive reflex corners of the same chain can both lie on the funnel: the corridor steps to one side and the second step is
+        # shorter than the first (for equal heights: 2*l1 - l2 > l0, resp. mirrored on the right edges)
+        l = [c["l[%d]" % i] for i in range(3)]
+        r = [c["r[%d]" % i] for i in range(3)]
+        return (l[0] < l[1] < l[2] and 2 * l[1] - l[2] > l[0]) or (r[0] > r[1] > r[2] and 2 * r[1] - r[2] < r[0])
+    cubes += [c for c in corridors(3, 6, [[20, 20, 20]]) if staircase(c) and c not in cubes]
     obs = [dict(name="shortest-open", pkg="internal/geom", func="Harness_C19", consts={"OPEN": 1, "PANICS": 1}, cubes=cubes, enctimeout=300, qtimeout=120, loop=48,
                 bounds="all well-formed corridors of 1..3 rectangles with left/right edges on a grid (x10): K=2 grid 0..3 with heights {20,20},{10,30},{30,10}; K=3 grid %s; "
                        "symbolic: x of the start point on the top side of the first and of the end point on the bottom side of the last rectangle, strictly between "
-                       "the corners (as phase5 calls it); panic sites included" % nm(q, "0..2 heights {20,20,20} plus the 44 generic-position corridors on grid 0..5 (six distinct x levels)", "0..3 heights {20,20,20},{10,30,20} plus the 44 generic-position corridors on grid 0..5; K=2 grid 0..5 heights {10,40},{40,10}"))]
+                       "the corners (as phase5 calls it); panic sites included" % nm(q, "0..2 heights {20,20,20}", "0..3 heights {20,20,20},{10,30,20} plus the 44 generic-position corridors on grid 0..5; K=2 grid 0..5 heights {10,40},{40,10}")
+                       + "; plus the 138 staircase corridors on grid 0..6 whose two consecutive reflex corners of one chain can both lie on the funnel")]
     corner = corridors(1, 1, [[20]])
     obs.append(dict(name="shortest-corner-class", pkg="internal/geom", func="Harness_C19", consts={"OPEN": 2, "PANICS": 1}, cubes=corner, enctimeout=60, qtimeout=60, loop=48,
                     replay_timeout=15, validate_cubes=0,
